@@ -144,7 +144,7 @@ pub fn run(tier: &str, seed: u64) -> i32 {
             RunEnd::StepLimit => { rep.inconclusive("step limit"); continue; }
             _ => {}
         }
-        if !o.ok {
+        if !o.ok && o.violation.is_none() {
             rep.harness_error(format!("honest run failed (judged by C01): {}", o.key));
             continue;
         }
